@@ -604,25 +604,63 @@ func checkResolutionRefresh(c *fw.Ctx) {
 	if fn == nil {
 		return
 	}
-	allowed := fw.IsCallTo(fw.NameIs("(*gmsl.allowerContext).allowed"))
+	// the steps may sit in unexported helpers of the loop body: sites are located with their call
+	// chains and ordered at the first level at which the chains part
+	al := deepCallsTo(fn, fw.NameIs("(*gmsl.allowerContext).allowed"))
 	for _, pre := range []struct {
 		name string
 		m    func(string) bool
 	}{{"authProvider.Clear()", fw.NameIs("(*gmsl.AuthEvents).Clear")}, {"allower.update(authProvider)", fw.NameIs("(*gmsl.allowerContext).update")}, {"StateNeededForAuth", fw.NameIs("gmsl.StateNeededForAuth")}} {
-		calls := fw.CallsTo(fn, false, pre.m)
-		okLoop := len(calls) == 1
-		var sameLoop bool
-		al := fw.CallsTo(fn, false, fw.NameIs("(*gmsl.allowerContext).allowed"))
-		if okLoop && len(al) == 1 {
-			// same iteration: the pre-step's block dominates the check and both are inside the loop
-			sameLoop = calls[0].Block().Dominates(al[0].Block()) && strings.Contains(condsOf(calls[0].Block()), "< builtin.len(param:events)")
+		construct := pre.name + " happens in every iteration before the check"
+		fail := "the per-event refresh " + pre.name + " does not precede allowed(event) inside the loop"
+		calls := deepCallsTo(fn, pre.m)
+		switch {
+		case len(calls) == 0 || len(al) == 0:
+			if od := fw.OpaqueDispatchAny(fn); od != "" {
+				c.Undecided(rule, construct, "authAndApplyEvents works through "+od+": the step may run behind it")
+			} else {
+				c.Fail(rule, construct, c.P.Pos(fn.Pos()), fail+" (no such call in the loop's region)")
+			}
+			continue
+		case len(calls) != 1 || len(al) != 1:
+			if len(fw.CallsTo(fn, false, pre.m)) > 1 {
+				c.Fail(rule, construct, c.P.Pos(fn.Pos()), fail+" (several refresh sites in the loop routine)")
+			} else {
+				c.Undecided(rule, construct, fmt.Sprintf("expected one site of the step and one of the check in the loop's region, found %d and %d", len(calls), len(al)))
+			}
+			continue
 		}
-		_, bad := fw.MustPrecede(fn, fw.IsCallTo(pre.m), allowed)
-		c.Check(okLoop && sameLoop && len(bad) == 0, rule, pre.name+" happens in every iteration before the check", c.P.Pos(fn.Pos()), "", "the per-event refresh "+pre.name+" does not precede allowed(event) inside the loop")
+		cp, ca := callChain(calls[0]), callChain(al[0])
+		k := 0
+		for k < len(cp) && k < len(ca) && cp[k] == ca[k] {
+			k++
+		}
+		ok := false
+		if k < len(cp) && k < len(ca) {
+			x, y := cp[k], ca[k]
+			if x.Block() == y.Block() {
+				ix, iy := -1, -1
+				for i, ins := range x.Block().Instrs {
+					if ins == x {
+						ix = i
+					}
+					if ins == y {
+						iy = i
+					}
+				}
+				ok = ix < iy
+			} else {
+				ok = x.Block().Dominates(y.Block())
+			}
+		}
+		// same iteration: the outermost site of the step is inside the loop over the events
+		inLoop := strings.Contains(condsOf(cp[0].Block()), "< builtin.len(param:events)")
+		c.Check(ok && inLoop, rule, construct, c.P.Pos(fn.Pos()), "", fail)
 	}
 	// update is given the provider that was just filled
-	for _, call := range fw.CallsTo(fn, false, fw.NameIs("(*gmsl.allowerContext).update")) {
-		c.Check(strings.HasSuffix(fw.Sig(call.Common().Args[1]), "recv.authProvider"), rule, "the checker is refreshed from the resolver's provider", c.P.Pos(call.Pos()), "", "update() receives "+fw.Sig(call.Common().Args[1]))
+	for _, dc := range deepCallsTo(fn, fw.NameIs("(*gmsl.allowerContext).update")) {
+		got := fw.SigIn(dc.Fr, dc.Call.Common().Args[1])
+		c.Check(strings.HasSuffix(got, "recv.authProvider"), rule, "the checker is refreshed from the resolver's provider", c.P.Pos(dc.Call.Pos()), "", "update() receives "+got)
 	}
 }
 
